@@ -209,3 +209,6 @@ Proof.
     assert (d = []) as -> by (destruct d; [reflexivity|discriminate He]).
     repeat split; reflexivity.
 Qed.
+
+Lemma pv_eq_dec_none x : x = PNone \/ x <> PNone.
+Proof. destruct x; try (right; discriminate). left; reflexivity. Qed.
